@@ -47,6 +47,8 @@ def main():
     ap.add_argument("--keep", action="store_true")
     ap.add_argument("--jobs", type=int, default=int(os.environ.get("VF_JOBS", "12")))
     ap.add_argument("--no-evidence", action="store_true")
+    ap.add_argument("--define", action="append", default=[], help="extra -D for every unit run (testing only)")
+    ap.add_argument("--no-canary", action="store_true", help="skip canary runs (mutant testing only)")
     a = ap.parse_args()
     tier = a.tier if a.tier in ("quick", "thorough") else "quick"
     seed = int(os.environ.get("VERIF_SEED", "0") or 0)
@@ -61,7 +63,9 @@ def main():
     work = []
     for u in units:
         for (variant, defs, kf) in jobs_for(u, tier, known):
-            work.append((u, variant, defs, kf))
+            if a.no_canary and variant == "canary":
+                continue
+            work.append((u, variant, list(defs) + list(a.define), kf))
     with ThreadPoolExecutor(max_workers=max(1, a.jobs)) as ex:
         futs = [ex.submit(driver.run_unit, u, tier, a.keep, tuple(defs), variant) for (u, variant, defs, kf) in work]
         results = [f.result() for f in futs]
@@ -146,7 +150,7 @@ def main():
             rd = os.path.join(VERIF, "replay", a.prop)
             os.makedirs(rd, exist_ok=True)
             rp = os.path.join(rd, "%s.%s.json" % (u["name"], re.sub(r"[^A-Za-z0-9_.-]", "_", f["id"])))
-            nat = driver.native_replay(u, f.get("IN"), extra_defines=tuple(defs), failed=f)
+            nat = driver.native_replay(u, f.get("IN"), extra_defines=tuple(defs), failed=f, tier=tier)
             rec = {"property": a.prop, "unit": u["name"], "functions": u["functions"], "tu": u["tu"],
                    "failed_obligation": f["id"], "obligation_text": f["description"],
                    "location": {"file": f.get("file"), "line": f.get("line"), "function": f.get("function")},
@@ -188,7 +192,7 @@ def main():
                                     "one real translation unit per unit; functions outside it are the stubs/models listed",
                                     "assume statements appear only in harness set-up and stubs (count per unit in units[].assumes_in_unit)"],
           "wall_s": round(time.time() - t0, 2), "violations": len(vio_lines)}
-    if not a.no_evidence and not a.unit:
+    if not a.no_evidence and not a.unit and not a.define and not a.no_canary:
         os.makedirs(os.path.join(VERIF, "evidence"), exist_ok=True)
         json.dump(ev, open(os.path.join(VERIF, "evidence", a.prop + ".json"), "w"), indent=1)
 
